@@ -35,6 +35,7 @@ def quilt_cases(draw):
     axis = draw(st.integers(0, 1))
     retain = draw(st.booleans())
     ascending_only = draw(st.integers(0, 3)) < 3
+    blabels = draw(st.sampled_from(['str', 'int', 'str']))   # Bus labels: names, or the integers 0.. (0 is a falsy label)
     backed = draw(st.booleans())
     k = draw(st.sampled_from([3, 2, 1, 4, 5]))
     w = draw(st.integers(1, 4))       # size of the aligned (opposite) axis
@@ -48,7 +49,7 @@ def quilt_cases(draw):
         members.append({'len': ln, 'cols': cols})
     total = sum(m['len'] for m in members)
     case = {'members': members, 'axis': axis, 'retain': retain, 'kinds': kinds, 'op': op, 'max_persist': draw(st.one_of(st.none(), st.integers(1, k))),
-            'backed': backed, 'ascending_only': ascending_only}
+            'backed': backed and blabels == 'str', 'ascending_only': ascending_only, 'blabels': blabels}
     if op in ('iloc', 'loc', 'getitem'):
         if case['ascending_only']:
             case['k0'] = draw(asc_key(total))
@@ -96,6 +97,7 @@ def _build(case, tmp):
     w = len(case['kinds'])
     frames = []
     off = 0
+    bname = (lambda q: q) if case.get('blabels') == 'int' else (lambda q: 'f%d' % q)
     for q, m in enumerate(case['members']):
         ln = m['len']
         # member labels along the quilt axis: unique across members unless labels are retained
@@ -106,9 +108,9 @@ def _build(case, tmp):
         off += ln
         other = ['o%d' % j for j in range(w)]
         if axis == 0:
-            f = sf.Frame.from_items(zip(other, m['cols']), index=own, name='f%d' % q)
+            f = sf.Frame.from_items(zip(other, m['cols']), index=own, name=bname(q))
         else:
-            f = sf.Frame.from_items(zip(other, m['cols']), index=own, name='f%d' % q).transpose().rename('f%d' % q)
+            f = sf.Frame.from_items(zip(other, m['cols']), index=own, name=bname(q)).transpose().rename(bname(q))
         frames.append(f)
     bus = sf.Bus.from_frames(frames)
     if case['backed']:
@@ -239,7 +241,7 @@ def _check_quilt(case, tmp):
         if op == 'hloc':
             if not case['retain']:
                 raise Discard('HLoc only with retained labels')
-            key = sf.HLoc['f%d' % case['q']]
+            key = sf.HLoc[case['q'] if case.get('blabels') == 'int' else 'f%d' % case['q']]
             return obj.loc[key] if axis == 0 else obj.loc[:, key]
         if op == 'iter_array':
             return list(obj.iter_array(axis=case['iaxis']))
